@@ -4,7 +4,7 @@ From Coq Require Import Lia Bool ZifyN ZifyBool ZifyNat.
 Local Open Scope N_scope.
 Local Open Scope bool_scope.
 
-(* ---------- character classes: finite facts (octets below 128) ---------- *)
+(* ---------- character classes: finite facts (all 256 octet values) ---------- *)
 Definition class_ok (c : N) : bool :=
   (negb (is_syminit c) || (negb (is_space c) && negb (c =? LPAREN) && negb (c =? RPAREN) && negb (is_digit c) && negb (c =? HASH) && is_symch c))
   && (negb (is_digit c) || (negb (is_space c) && negb (c =? LPAREN) && negb (c =? RPAREN) && negb (c =? HASH) && is_xdigit c && is_symch c
@@ -12,25 +12,25 @@ Definition class_ok (c : N) : bool :=
   && (negb (is_delim c) || (negb (is_symch c) && negb (is_digit c) && negb (is_xdigit c)))
   && (negb (is_space c) || (negb (c =? LPAREN) && negb (c =? RPAREN) && negb (c =? HASH) && is_delim c))
   && (negb (is_xdigit c) || (negb (is_space c) && negb (c =? LPAREN) && negb (c =? RPAREN) && negb (c =? HASH))).
-Lemma class_sweep : all_from 128 0 class_ok = true.
+Lemma class_sweep : all_from 256 0 class_ok = true.
 Proof. vm_cast_no_check (eq_refl true). Qed.
 
-Definition ascii (l : list N) : Prop := Forall (fun c => c < 128) l.
+Definition octet_text (l : list N) : Prop := Forall (fun c => c < 256) l.
 
-Lemma class_facts c : c < 128 -> class_ok c = true.
-Proof. intros H. apply (all_from_spec 128 0 class_ok class_sweep). cbn. lia. Qed.
+Lemma class_facts c : c < 256 -> class_ok c = true.
+Proof. intros H. apply (all_from_spec 256 0 class_ok class_sweep). cbn. lia. Qed.
 
 Ltac split_ands H := repeat match type of H with _ && _ = true => let A := fresh in apply andb_prop in H as [H A]; try split_ands A end.
 Ltac negs := repeat match goal with H : negb _ = true |- _ => apply negb_true_iff in H end.
 
-Lemma syminit_facts c : c < 128 -> is_syminit c = true ->
+Lemma syminit_facts c : c < 256 -> is_syminit c = true ->
   is_space c = false /\ (c =? LPAREN) = false /\ (c =? RPAREN) = false /\ is_digit c = false /\ (c =? HASH) = false /\ is_symch c = true.
 Proof.
   intros H Hc. pose proof (class_facts c H) as F. unfold class_ok in F.
   apply andb_prop in F as [F _]. apply andb_prop in F as [F _]. apply andb_prop in F as [F _]. apply andb_prop in F as [F _].
   rewrite Hc in F. cbn [negb orb] in F. split_ands F. negs. auto 10.
 Qed.
-Lemma digit_facts c : c < 128 -> is_digit c = true ->
+Lemma digit_facts c : c < 256 -> is_digit c = true ->
   is_space c = false /\ (c =? LPAREN) = false /\ (c =? RPAREN) = false /\ (c =? HASH) = false /\ is_xdigit c = true /\ is_symch c = true /\
   is_syminit c = false.
 Proof.
@@ -38,19 +38,19 @@ Proof.
   apply andb_prop in F as [F _]. apply andb_prop in F as [F _]. apply andb_prop in F as [F _]. apply andb_prop in F as [_ F].
   rewrite Hc in F. cbn [negb orb] in F. split_ands F. negs. auto 10.
 Qed.
-Lemma delim_facts c : c < 128 -> is_delim c = true -> is_symch c = false /\ is_digit c = false /\ is_xdigit c = false.
+Lemma delim_facts c : c < 256 -> is_delim c = true -> is_symch c = false /\ is_digit c = false /\ is_xdigit c = false.
 Proof.
   intros H Hc. pose proof (class_facts c H) as F. unfold class_ok in F.
   apply andb_prop in F as [F _]. apply andb_prop in F as [F _]. apply andb_prop in F as [_ F].
   rewrite Hc in F. cbn [negb orb] in F. split_ands F. negs. auto.
 Qed.
-Lemma space_facts c : c < 128 -> is_space c = true -> (c =? LPAREN) = false /\ (c =? RPAREN) = false /\ (c =? HASH) = false /\ is_delim c = true.
+Lemma space_facts c : c < 256 -> is_space c = true -> (c =? LPAREN) = false /\ (c =? RPAREN) = false /\ (c =? HASH) = false /\ is_delim c = true.
 Proof.
   intros H Hc. pose proof (class_facts c H) as F. unfold class_ok in F.
   apply andb_prop in F as [F _]. apply andb_prop in F as [_ F].
   rewrite Hc in F. cbn [negb orb] in F. split_ands F. negs. auto.
 Qed.
-Lemma xdigit_facts c : c < 128 -> is_xdigit c = true -> is_space c = false /\ (c =? LPAREN) = false /\ (c =? RPAREN) = false /\ (c =? HASH) = false.
+Lemma xdigit_facts c : c < 256 -> is_xdigit c = true -> is_space c = false /\ (c =? LPAREN) = false /\ (c =? RPAREN) = false /\ (c =? HASH) = false.
 Proof.
   intros H Hc. pose proof (class_facts c H) as F. unfold class_ok in F.
   apply andb_prop in F as [_ F].
@@ -86,27 +86,27 @@ Inductive atom_text : sx -> list N -> Prop :=
 | A_dec ds : ds <> [] -> forallb is_digit ds = true -> atom_text (Int (number 10 ds)) ds
 | A_hex ds : ds <> [] -> forallb is_xdigit ds = true -> atom_text (Int (number 16 ds)) (HASH :: CH_x :: ds).
 
-Lemma ascii_app a b : ascii (a ++ b) <-> ascii a /\ ascii b.
-Proof. unfold ascii. apply Forall_app. Qed.
+Lemma octet_text_app a b : octet_text (a ++ b) <-> octet_text a /\ octet_text b.
+Proof. unfold octet_text. apply Forall_app. Qed.
 
-Lemma ends_well_stop (p : N -> bool) rest : ascii rest -> ends_well rest = true ->
-  (forall c, c < 128 -> is_delim c = true -> p c = false) ->
+Lemma ends_well_stop (p : N -> bool) rest : octet_text rest -> ends_well rest = true ->
+  (forall c, c < 256 -> is_delim c = true -> p c = false) ->
   match rest with [] => True | c :: _ => p c = false end.
 Proof.
   intros Ha He Hp. destruct rest as [|c r]; [exact I|]. inversion Ha; subst. apply Hp; assumption.
 Qed.
 
-Lemma delim_not_symch c : c < 128 -> is_delim c = true -> is_symch c = false.
+Lemma delim_not_symch c : c < 256 -> is_delim c = true -> is_symch c = false.
 Proof. intros H Hd. apply (delim_facts c H Hd). Qed.
-Lemma delim_not_digit c : c < 128 -> is_delim c = true -> is_digit c = false.
+Lemma delim_not_digit c : c < 256 -> is_delim c = true -> is_digit c = false.
 Proof. intros H Hd. apply (delim_facts c H Hd). Qed.
-Lemma delim_not_xdigit c : c < 128 -> is_delim c = true -> is_xdigit c = false.
+Lemma delim_not_xdigit c : c < 256 -> is_delim c = true -> is_xdigit c = false.
 Proof. intros H Hd. apply (delim_facts c H Hd). Qed.
 
-Lemma tok_atom w t s rest : ascii (w ++ s ++ rest) -> all_space w -> atom_text t s -> ends_well rest = true ->
+Lemma tok_atom w t s rest : octet_text (w ++ s ++ rest) -> all_space w -> atom_text t s -> ends_well rest = true ->
   token (w ++ s ++ rest) = {| t_status := SSuccess; t_node := Some t; t_used := Some (length w + length s)%nat |}.
 Proof.
-  intros Ha Hw Ht He. apply ascii_app in Ha as [Haw Ha]. apply ascii_app in Ha as [Has Har].
+  intros Ha Hw Ht He. apply octet_text_app in Ha as [Haw Ha]. apply octet_text_app in Ha as [Has Har].
   unfold token. destruct Ht as [cs Hv|ds Hne Hd|ds Hne Hd].
   - (* symbol *)
     destruct cs as [|c r]; [destruct Hv|]. destruct Hv as [Hc Hr]. inversion Has as [|? ? Hc128 Hr128]; subst.
@@ -194,17 +194,17 @@ Proof. intros ->. rewrite skipn_app, skipn_all, Nat.sub_diag. reflexivity. Qed.
 Definition elem_ok (t : sx) (s : list N) : Prop :=
   atom_text t s \/
   exists ts s', t = list_of ts /\ s = LPAREN :: s' /\
-    forall fuel rest, (length s' < fuel)%nat -> ascii (s' ++ rest) ->
+    forall fuel rest, (length s' < fuel)%nat -> octet_text (s' ++ rest) ->
       parse_list fuel (s' ++ rest) = Some (ROk (list_of ts) (length s')).
 
 Lemma parse_list_complete_mut :
   forall ts s, renders_elems ts s ->
-    forall fuel rest, (length s < fuel)%nat -> ascii (s ++ rest) ->
+    forall fuel rest, (length s < fuel)%nat -> octet_text (s ++ rest) ->
       parse_list fuel (s ++ rest) = Some (ROk (list_of ts) (length s)).
 Proof.
   apply (renders_elems_mut
            (fun t s _ => elem_ok t s)
-           (fun ts s _ => forall fuel rest, (length s < fuel)%nat -> ascii (s ++ rest) ->
+           (fun ts s _ => forall fuel rest, (length s < fuel)%nat -> octet_text (s ++ rest) ->
                             parse_list fuel (s ++ rest) = Some (ROk (list_of ts) (length s)))).
   - (* atom *) intros t s Ha. left. exact Ha.
   - (* list *) intros ts s Hr IH. right. exists ts, s. auto.
@@ -222,15 +222,15 @@ Proof.
       rewrite (tok_atom w t s1 (s2 ++ rest)); try assumption; [|apply starts_delim_ends_well, Hd, Hia].
       cbn [t_used t_status t_node].
       rewrite (app_assoc w s1), skipn_app_exact by (rewrite app_length; reflexivity).
-      assert (Ha2 : ascii (s2 ++ rest)).
-      { apply ascii_app in Ha as [_ Ha]. apply ascii_app in Ha as [_ Ha]. exact Ha. }
+      assert (Ha2 : octet_text (s2 ++ rest)).
+      { apply octet_text_app in Ha as [_ Ha]. apply octet_text_app in Ha as [_ Ha]. exact Ha. }
       rewrite (IH2 f rest) by (try assumption; lia).
       destruct t; try discriminate; cbn [list_of fold_right]; do 2 f_equal; rewrite !app_length; lia.
     + (* nested list *)
       cbn [app]. rewrite tok_lparen by exact Hw. cbn [t_used t_status t_node].
-      assert (Ha1 : ascii (s1' ++ s2 ++ rest)).
-      { apply ascii_app in Ha as [_ Ha]. inversion Ha; assumption. }
-      assert (Ha2 : ascii (s2 ++ rest)) by (apply ascii_app in Ha1 as [_ Ha1]; exact Ha1).
+      assert (Ha1 : octet_text (s1' ++ s2 ++ rest)).
+      { apply octet_text_app in Ha as [_ Ha]. inversion Ha; assumption. }
+      assert (Ha2 : octet_text (s2 ++ rest)) by (apply octet_text_app in Ha1 as [_ Ha1]; exact Ha1).
       cbn [length] in Hf.
       replace (w ++ LPAREN :: s1' ++ s2 ++ rest)%list with ((w ++ [LPAREN]) ++ s1' ++ s2 ++ rest)%list
         by (rewrite <- app_assoc; reflexivity).
@@ -244,7 +244,7 @@ Proof.
 Qed.
 
 (* ---------- the reader inverts printing ---------- *)
-Theorem parse_printed t s w rest : renders t s -> all_space w -> ascii (w ++ s ++ rest) ->
+Theorem parse_printed t s w rest : renders t s -> all_space w -> octet_text (w ++ s ++ rest) ->
   (is_atom t = true -> ends_well rest = true) ->
   sx_parse (w ++ s ++ rest) = Some (ROk t (length w + length s)).
 Proof.
@@ -255,8 +255,8 @@ Proof.
   - cbn [app]. rewrite tok_lparen by exact Hw. cbn [t_used t_status t_node].
     replace (w ++ LPAREN :: s' ++ rest)%list with ((w ++ [LPAREN]) ++ s' ++ rest)%list by (rewrite <- app_assoc; reflexivity).
     rewrite skipn_app_exact by (rewrite app_length; reflexivity).
-    assert (Ha' : ascii (s' ++ rest)).
-    { apply ascii_app in Ha as [_ Ha]. inversion Ha; assumption. }
+    assert (Ha' : octet_text (s' ++ rest)).
+    { apply octet_text_app in Ha as [_ Ha]. inversion Ha; assumption. }
     rewrite (parse_list_complete_mut ts s' Hre) by (try assumption; unfold parse_fuel; rewrite !app_length; cbn [length]; lia).
     do 2 f_equal. cbn [length]. lia.
 Qed.
@@ -287,11 +287,11 @@ Definition token_shape (inp : list N) (tk : tokres) : Prop :=
 Lemma firstn_app_exact {A} (a b : list A) n : n = length a -> firstn n (a ++ b) = a.
 Proof. intros ->. rewrite firstn_app, Nat.sub_diag, firstn_all. cbn. apply app_nil_r. Qed.
 
-Lemma token_inv inp : ascii inp -> token_shape inp (token inp).
+Lemma token_inv inp : octet_text inp -> token_shape inp (token inp).
 Proof.
   intros Ha. unfold token, token_shape.
   destruct (span is_space inp) as [w r] eqn:Es. destruct (span_spec _ _ _ _ Es) as (-> & Hw & Hr).
-  apply ascii_app in Ha as [Haw Har].
+  apply octet_text_app in Ha as [Haw Har].
   destruct r as [|c r1]; [cbn; auto|].
   inversion Har as [|? ? Hc128 Hr128]; subst.
   destruct (match r1 with x :: h :: _ => (c =? HASH) && (x =? CH_x) && is_xdigit h | _ => false end) eqn:Ehex.
@@ -355,8 +355,8 @@ Proof.
     exists w, []. split; [rewrite app_nil_r; apply firstn_app_exact; reflexivity|]. split; [exact Hw|exact I].
 Qed.
 
-Lemma ascii_skipn n l : ascii l -> ascii (skipn n l).
-Proof. unfold ascii. revert l; induction n; intros [|x t] H; cbn; try constructor; inversion H; subst; auto. Qed.
+Lemma ascii_skipn n l : octet_text l -> octet_text (skipn n l).
+Proof. unfold octet_text. revert l; induction n; intros [|x t] H; cbn; try constructor; inversion H; subst; auto. Qed.
 
 Lemma elems_nonempty ts s : renders_elems ts s -> s <> [].
 Proof.
@@ -370,7 +370,7 @@ Lemma ends_well_firstn l n : ends_well l = true -> firstn n l <> [] -> starts_de
 Proof. destruct l as [|c r]; destruct n; cbn; intros; try congruence; assumption. Qed.
 
 (* success of the list parser: the consumed octets are a rendering of the elements up to the closing parenthesis *)
-Theorem parse_list_sound : forall fuel inp t c, ascii inp -> parse_list fuel inp = Some (ROk t c) ->
+Theorem parse_list_sound : forall fuel inp t c, octet_text inp -> parse_list fuel inp = Some (ROk t c) ->
   (c <= length inp)%nat /\ exists ts, t = list_of ts /\ renders_elems ts (firstn c inp).
 Proof.
   induction fuel as [|f IH]; intros inp t c Ha H; [discriminate|].
@@ -412,7 +412,7 @@ Proof.
 Qed.
 
 (* the reader never runs out of fuel: it terminates on every input *)
-Lemma parse_list_total : forall fuel inp, ascii inp -> (length inp < fuel)%nat -> parse_list fuel inp <> None.
+Lemma parse_list_total : forall fuel inp, octet_text inp -> (length inp < fuel)%nat -> parse_list fuel inp <> None.
 Proof.
   induction fuel as [|f IH]; intros inp Ha Hl; [lia|].
   cbn [parse_list]. pose proof (token_inv inp Ha) as T. unfold token_shape in T.
@@ -442,7 +442,7 @@ Proof.
     destruct (parse_list f (skipn (c0 + c1) inp)) as [[d c2|e]|]; [discriminate|discriminate|contradiction].
 Qed.
 
-Theorem sx_parse_total inp : ascii inp -> sx_parse inp <> None.
+Theorem sx_parse_total inp : octet_text inp -> sx_parse inp <> None.
 Proof.
   intros Ha. unfold sx_parse.
   destruct (t_used (token inp)) as [c0|]; [|discriminate].
@@ -455,7 +455,7 @@ Qed.
 
 (* success: the consumed octets are optional white space and a rendering of the returned tree, inside the input;
    an atom is followed by the end of the input or a delimiter *)
-Theorem sx_parse_sound inp t c : ascii inp -> sx_parse inp = Some (ROk t c) ->
+Theorem sx_parse_sound inp t c : octet_text inp -> sx_parse inp = Some (ROk t c) ->
   (c <= length inp)%nat /\
   exists w s, firstn c inp = (w ++ s)%list /\ all_space w /\ renders t s /\
               (is_atom t = true -> ends_well (skipn c inp) = true).
@@ -475,7 +475,7 @@ Proof.
 Qed.
 
 (* hence: an input that does not begin, after optional white space, with a complete expression is rejected *)
-Corollary sx_parse_rejects inp : ascii inp ->
+Corollary sx_parse_rejects inp : octet_text inp ->
   (forall w s rest t, inp = (w ++ s ++ rest)%list -> all_space w -> renders t s -> (is_atom t = true -> ends_well rest = true) -> False) ->
   exists e, sx_parse inp = Some (RErr e).
 Proof.
